@@ -225,8 +225,8 @@ CLAIMED['C16'] = {
              'hand-substituted formula structurally (hence any function of it: signature, value), every operator of prepare_operators maps valid to valid for any step. '
              'Tied by streams on random structures (shared/nested catalogs, helpers, from_dict): catalog tree as built, controllers, count, ids, iteration, every sampled '
              'configuration (tree, selected names, elementary expressions, get_children/get_signature views, get_value), every operator with steps {1,2,size,size+1,...} '
-             'and its inverse. PARTIAL: values compared through Python get_value and identical canonical signatures, not through the C++ engine; two Controller objects '
-             'of one name are outside the model (open known finding). Added: a formula is accepted iff controllers of one name are one Controller object wherever they sit (merge_controllers regenerated from source; T16j), so accepted formulas have pairwise distinct controller names and the id determines the configuration; for every legal controller state, hence after any history and whatever the creation order of catalogs, a formula reads as the hand-written formula of the configuration it reports, which lies in its own product (T16i). Streams history (objects created between moves through every entry point, every object read after every step, own count and ids of embedded sub-formulas) and malformed (two controllers of one name refused at every position and through the helpers, shared object accepted).'),
+             'and its inverse. PARTIAL: values compared through Python get_value and identical canonical signatures, not through the C++ engine. '
+             'Added: a formula is accepted iff controllers of one name are one Controller object wherever they sit (merge_controllers regenerated from source; T16j), so accepted formulas have pairwise distinct controller names and the id determines the configuration; for every legal controller state, hence after any history and whatever the creation order of catalogs, a formula reads as the hand-written formula of the configuration it reports, which lies in its own product (T16i). Streams history (objects created between moves through every entry point, every object read after every step, own count and ids of embedded sub-formulas) and malformed (two controllers of one name refused at every position and through the helpers, shared object accepted).'),
     'note': KERNEL + 'tie-A extractor lib/props/c16_extract.py (py2v + fail-closed AST templates); CPython semantics of str.split/sorted/dict/set as modelled; random.choices as an arbitrary oracle.',
 }
 
